@@ -35,10 +35,8 @@ def oracle_validation(src, seed, n_probes, shard_env, py, shard_main):
         run = 0
         while out["probes"] < n_probes and run < n_probes * 4:
             run += 1
-            rs = gen.run_seed(seed, 9000, run)
-            prog = gen.gen_program(random.Random(rs), False)
+            prog, envs, _ = gen.program_for_run(seed, 9000, run, False)
             steps = prog["steps"]
-            envs = gen.make_envs(steps)
             producing = [s["id"] for s in steps if s["op"] in ("and", "or", "reparse")] or [steps[-1]["id"]]
             sid = rng.choice(producing)
             hs = gen.shard_hash_seed(seed, 9000 + run % 7)
